@@ -4044,3 +4044,67 @@ func ruleCommitRespectsOlderReaders(r *Run, rule string) {
 		r.check(consults, rule, "risc.(Context)."+name+":older-readers", fd.Pos(), "%s folds renamed writes into the one-value-per-register committed table without regard to older in-flight instructions that have not read the register yet (it consults neither the pending reads nor the age of the oldest in-flight instruction)", name)
 	}
 }
+
+// ruleLineFillLength (R05.20): a line fill builds exactly one line: the loop that appends the
+// bytes of the line (from the image, or padding) runs `for i := 0; i < <line size>; i++` — from
+// 0, strictly below the size, by one. One byte more and the write-back of the line overwrites
+// the first byte of the NEXT line with the value it had when the line was fetched.
+func ruleLineFillLength(r *Run, rule string) {
+	w := r.W
+	for _, v := range variants(w) {
+		if v.pkg == nil {
+			continue
+		}
+		info := v.info
+		for _, f := range v.pkg.Syntax {
+			for _, d := range f.Decls {
+				fd, ok := d.(*ast.FuncDecl)
+				if !ok || fd.Body == nil || fd.Type.Results == nil {
+					continue
+				}
+				n := 0
+				ast.Inspect(fd.Body, func(m ast.Node) bool {
+					fs, ok := m.(*ast.ForStmt)
+					if !ok || fs.Cond == nil || fs.Init == nil || fs.Post == nil {
+						return true
+					}
+					// the body reads the memory image and appends to a []int8
+					readsImage, appends := false, false
+					ast.Inspect(fs.Body, func(k ast.Node) bool {
+						switch x := k.(type) {
+						case *ast.IndexExpr:
+							if ctxFieldWritten(info, x.X) == "Memory" {
+								readsImage = true
+							}
+						case *ast.CallExpr:
+							if id, ok := x.Fun.(*ast.Ident); ok && id.Name == "append" && len(x.Args) == 2 {
+								if typeName(info.TypeOf(x.Args[0])) == "[]int8" {
+									appends = true
+								}
+							}
+						}
+						return true
+					})
+					if !readsImage || !appends {
+						return true
+					}
+					n++
+					fromZero, strict, byOne := false, false, false
+					if as, ok := fs.Init.(*ast.AssignStmt); ok && len(as.Rhs) == 1 {
+						if c, ok := constInt64(info.Types[as.Rhs[0]]); ok && c == 0 {
+							fromZero = true
+						}
+					}
+					if b, ok := ast.Unparen(fs.Cond).(*ast.BinaryExpr); ok && b.Op == token.LSS {
+						strict = true
+					}
+					if inc, ok := fs.Post.(*ast.IncDecStmt); ok && inc.Tok == token.INC {
+						byOne = true
+					}
+					r.check(fromZero && strict && byOne, rule, fmt.Sprintf("%s.%s:fill-loop#%d", v.rel, declName(fd), n), fs.Pos(), "the fill loop runs from 0 (%v), strictly below the line size (%v), by one (%v)", fromZero, strict, byOne)
+					return true
+				})
+			}
+		}
+	}
+}
